@@ -27,6 +27,6 @@ SSM_ASSUMPTIONS = [
     "everything leaving a transaction is a ghost-traced external: Client.request (to the network), ServiceAccessPoint.sap_request / sap_response (to the application), DeviceInfoCache.acquire / release / update_device_info",
     "segment sizes are drawn from {50, 480} in mid-transfer states and computed from max-APDU values in {50, 128.., 480, 1024, 1476, 1497} at the start (a symbolic size makes count * size non-linear); payload, counts, indexes, sequence numbers, invoke IDs, retry counts and timeouts are symbolic and unbounded where the type allows",
     "fill_window is unrolled over the actual window size: windows up to SSM_WINDOW (2 in the quick tier, 8 in the thorough tier -- the property's window range 1..8); larger windows are not covered by the sender-side obligations",
-    "honest peer: a segment ack names a segment this side has sent (the last one only after it was sent) or an older one, window sizes in acks and requests are 1..127",
+    "conforming peer: window sizes in acks and requests are 1..127 (which segment an ack names is not restricted: late copies from an earlier try are covered)",
     "whole-history claims (any loss / duplication / delay / reordering) = induction over the per-call contracts: the class invariant is established at the start and preserved by every entry point for every PDU and every timeout, so it holds after every sequence of them; the composition itself is the standard invariant argument and is not machine-checked as a whole",
 ]
